@@ -12,7 +12,7 @@ P = {
          'the API wiring (which template, argument order, where set_message_length is applied) is modelled by hand and tied by correspondence'),
  "C02": ("proof", "Theorems C02_<operation> for control_device, set_auto_shutdown, set_device_name, get_schedules, delete_schedule, create_schedule, stop and set_position: the exact frame list of the exchange model is [Spec login frame; Spec command frame], where the Spec frame renders an independently written byte layout with the declared meaning of the arguments (60 x minutes, whole minutes in 1h..23h59m, UTF-8 padded to 32 bytes, slot, position), and rejected arguments leave the login frame alone; generic theorem: whatever a call site writes is the layout's frame; all 15 templates equal their layouts. Each run compares the real command frame byte by byte with the extracted Spec on boundary and random arguments.", "5 C02 / 12.2",
          'create_schedule is stated relative to today\'s local midnight (the zone part is C11\'s theorem); the thermostat frames are C16\'s theorems'),
- "C03": ("proof", "Theorems: the exchange model of an operation is a function of its own configuration, clock reading, arguments and replies; the Spec login frame carries a zero session, the timestamp and the key (type 1) / device id (type 2); every Spec command frame carries at bytes 8-11 / 24-27 / 40-42 the session of this login's reply, this operation's timestamp and the device id; with C02's exact frame lists this fixes number, order and binding of frames. Each run drives single operations, sequences on one object, two interleaved objects (incl. the four-frame thermostat flow) and judges every frame with the extracted shape checker.", "5 C03 / 12.2",
+ "C03": ("proof", "Theorems: any sequence of operations on one connection, for any device script, writes exactly the frames and has exactly the outcomes of each operation run alone on the replies its predecessors left, one reply consumed per frame (C03_operations_are_independent, from the frame rule of the exchange model proved for all 12 operations, Proofs/Uniform.v); any number of API objects in any order: each object's connection and outcomes are those of its own operations (C03_objects_do_not_interfere); the Spec login frame carries a zero session, the timestamp and the key (type 1) / device id (type 2); every Spec command frame carries at bytes 8-11 / 24-27 / 40-42 the session of this login's reply, this operation's timestamp and the device id; with C02's exact frame lists this fixes number, order and binding of frames. Each run drives single operations, sequences on one object (per-operation scripts, and one device script for a whole sequence compared with the extracted sequence model and its Spec reading), two interleaved objects (incl. the four-frame thermostat flow) and judges every frame with the extracted shape checker.", "5 C03 / 12.2",
          'partial: that the Python classes keep no hidden state and how asyncio interleaves coroutines is tested by correspondence, not modelled'),
  "C04": ("proof", "Theorems for every hex string: sign(p) = p ++ hex(double CRC) with the bit-serial CRC-16/CCITT as Spec, table-driven "
          "crc_hqx proved equal to it, rejection of non-hex input; per run the extracted model and Spec are compared with "
